@@ -468,7 +468,7 @@ PROPS = {
             B("w_expr.cpp", "expr", cfg="S20r", quick=0, thorough=90, params="faults=1", oracles=["c01.", "c02.", "c04.", "c05.", "c12.", "c20."] + RT_ALL),
             B("w_expr.cpp", "expr", cfg="S17d", quick=0, thorough=90, params="faults=1", oracles=["c01.", "c02.", "c04.", "c05.", "c12.", "c20."] + RT_ALL),
             B("w_expr.cpp", "expr", cfg="S17rv", quick=0, thorough=60, params="faults=1", oracles=["c01.", "c02.", "c04.", "c05.", "c12.", "c20."] + RT_ALL),
-            B("w_expr.cpp", "expr", cfg="S20dv", quick=0, thorough=60, params="faults=1", oracles=["c01.", "c02.", "c04.", "c05.", "c12.", "c20."] + RT_ALL),
+            B("w_expr.cpp", "expr", cfg="S20dv", quick=4, thorough=60, params="faults=1", oracles=["c01.", "c02.", "c04.", "c05.", "c12.", "c20."] + RT_ALL),
             B("w_stream.cpp", "stream", cfg="S17d", quick=0, thorough=60, oracles=["c13.", "c01.", "c02."] + RT_ALL),
             B("w_coro.cpp", "coro", cfg="S20rv", quick=0, thorough=60, oracles=["c10.", "c11.", "c01.", "c02."] + RT_ALL),
             B("w_coro.cpp", "coro", cfg="S20d", quick=5, thorough=60, oracles=["c10.", "c11.", "c01.", "c02.", "c20."] + RT_ALL),
